@@ -156,6 +156,11 @@ void xp_violation(const char *sig, const char *fmt, ...)
 	va_end(ap);
 	ADD(viol_total, 1);
 	if (XC.replay) {
+		/* one line per signature: a replayed enumerator job can hit the same violation millions of times */
+		static char seen[64][128]; static int nseen;
+		for (int i = 0; i < nseen; i++) if (!strncmp(seen[i], sig, 127)) return;
+		if (nseen < 64) snprintf(seen[nseen++], 128, "%s", sig);
+		else return;
 		printf("REPLAY-VIOLATION sig=%s detail=%s\n", sig, detail);
 		fflush(stdout);
 		return;
